@@ -435,15 +435,38 @@ def run_c11(res, ast, rules=("TEMPS-BY-CONSTRUCTION", "WINDOW-BY-CONSTRUCTION", 
             inits = [se for se in walk_t(an["body"], "StructExpr") if se["path"]["name"] == "Analysis"]
             okinit = len(inits) == 1 and {f["member"]: int_lit(f["expr"]) for f in inits[0]["fields"] if f["member"] in ("min_accessed", "max_accessed")} == {"min_accessed": 0, "max_accessed": 0}
             res.check(okinit, "WINDOW-BY-CONSTRUCTION", f"{BC}|analyze|init", w, "the window must start at [0, 0] (the current cell)")
-            import pm
-            accp = [p_["pat"]["name"] for p_ in acc["sig"]["inputs"] if p_["t"] == "Arg"]
-            oka = len(accp) == 1 and pm.match_stmts(acc["body"]["stmts"],
-                "if self.min_accessed > __v_x { self.min_accessed = __v_x; } if self.max_accessed < __v_x { self.max_accessed = __v_x; }", {"__v_x": accp[0]}) is not None
-            res.check(oka, "WINDOW-BY-CONSTRUCTION", f"{BC}|accessed", where(BC, acc, "Analysis::accessed"), "accessed must widen both ends of the window")
-            wrp = [p_["pat"]["name"] for p_ in wr["sig"]["inputs"] if p_["t"] == "Arg"]
-            okw_ = len(wrp) == 1 and pm.match_stmts(wr["body"]["stmts"], "self.accessed(__v_x); __rest;", {"__v_x": wrp[0]}) is not None
-            res.check(okw_, "WINDOW-BY-CONSTRUCTION", f"{BC}|written", where(BC, wr, "Analysis::written"),
-                      "written must call self.accessed(var) unconditionally, as its first statement")
+            # accessed / written evaluated on the order classes of the cell relative to the window (below, inside, above) and of has_shift
+            import receval
+            from receval import Rec as _Rec, MapV as _MapV
+            from rusteval import Env as _Env, ReturnEx as _Ret, Unanalysable as _Un, Reached as _Re
+
+            def call_on(fnode, rec, arg):
+                ps_ = [p_["pat"]["name"] for p_ in fnode["sig"]["inputs"] if p_["t"] == "Arg" and p_["pat"]["t"] == "PIdent"]
+                if len(ps_) != 1:
+                    raise _Un("unexpected parameters")
+                it_ = receval.RecInterp(ast, BC, rec)
+                env_ = _Env()
+                env_.bind(ps_[0], arg)
+                try:
+                    it_.exec_block(fnode["body"], env_)
+                except _Ret:
+                    pass
+            for fnode, fname_, what_ in ((acc, "accessed", "accessed must widen both ends of the window"),
+                                         (wr, "written", "written must count the cell as accessed in every state, and as written unless the block already shifts")):
+                bad_ = []
+                try:
+                    for var_ in (-7, -2, 0, 5, 9):
+                        for hs in ((False,) if fname_ == "accessed" else (False, True)):
+                            rec = _Rec(min_accessed=-2, max_accessed=5, has_shift=hs, writes=_MapV(), sub_anal=[])
+                            call_on(fnode, rec, var_)
+                            if rec["min_accessed"] != min(-2, var_) or rec["max_accessed"] != max(5, var_):
+                                bad_.append(f"cell {var_} with window [-2, 5]{' after a shift' if hs else ''}: the window becomes [{rec['min_accessed']}, {rec['max_accessed']}]")
+                            if fname_ == "written" and not hs and var_ not in rec["writes"]:
+                                bad_.append(f"cell {var_} is not entered into `writes`")
+                            res.evaluations += 1
+                except (_Un, _Re, KeyError, TypeError, IndexError, AttributeError) as u_:
+                    bad_.append(f"cannot be analysed (fail closed): {u_}")
+                res.check(not bad_, "WINDOW-BY-CONSTRUCTION", f"{BC}|{fname_}", where(BC, fnode, "Analysis::" + fname_), what_ + ": " + "; ".join(bad_[:2]))
             import pm
             arms = {}
             for m in walk_t(an["body"], "Match"):
